@@ -173,6 +173,30 @@ def run(ck, rng, tier):
         if r1 and r2 and r1[0]["rand"] != r2[0]["rand"]:
             ck.fail("generate_seed", "state_zero_consults_clock", "srand_(%d) puts the generator in state 0; the following draws depend on time(NULL)" % hint,
                     {"seed": hint, "run1": r1[0]["rand"], "run2": r2[0]["rand"]})
+    # --- ThreadSanitizer: the cross-validation and y-scrambling routines with 2 and 4 workers
+    try:
+        ets = vf.build_driver("drv_c06", "tsan")
+        tl = []
+        for algo in (4, 0):
+            for nth in (2, 4):
+                tl.append("boot %d %s %s 3 4 %d %d" % (algo, vf.fmt_mat(X), vf.fmt_mat(Y), nth, 2 if not thorough else 6))
+        tl.append("yscr 4 %s %s 1 4 2" % (vf.fmt_mat(X), vf.fmt_mat(Y)))
+        tl.append("yscr 0 %s %s 0 2 2" % (vf.fmt_mat(X), vf.fmt_mat(Y)))
+        rct, outt, errt = vf.run_driver(ets, "\n".join(tl) + "\n", timeout=900, env={"TSAN_OPTIONS": "exitcode=66 halt_on_error=0 report_signal_unsafe=0"})
+        ck.case(("tsan", len(tl)))
+        ck.count("ThreadSanitizer runs", len(tl))
+        ck.cov["tsan_runs"] = len(tl)
+        if "ThreadSanitizer: data race" in errt:
+            import re as _re
+            loc = _re.search(r"#\d+ (\w+) /repo/src/(\w+\.c):(\d+)", errt)
+            what = _re.search(r"Location is (global|heap block|stack)[^\n]*", errt)
+            site = loc.group(1) if loc else "unknown"
+            ck.fail(site, "data_race", "ThreadSanitizer reports a data race in %s (%s:%s); %s" % (site, loc.group(2) if loc else "?", loc.group(3) if loc else "?", what.group(0) if what else ""),
+                    {"report": errt[:3000], "commands": [t[:60] for t in tl]})
+        elif rct != 0 or len(outt) != len(tl):
+            ck.broken("driver drv_c06 (tsan)", "rc=%s cases=%d/%d %s" % (rct, len(outt), len(tl), errt[-600:]))
+    except vf.BuildError as e:
+        ck.broken("build (tsan)", str(e))
     failing, logs, cerr = vf.run_cases_v("c06", IMPORTS, DEFS, checks.items, shard=150)
     if cerr:
         ck.broken("correspondence:coq-eval", cerr)
